@@ -11,6 +11,39 @@ def signature(m):
     return "%s|%s|%s" % (b.get("kind"), f["what"], b["calls"][0]["def"])
 
 
+def steps_trace(res, recs, n):
+    step = max(1, len(recs) // n)
+    sample = recs[::step]
+    inp = os.path.join(vlib.WORK, "beh", "C03-steps.in.ndjson")
+    out = os.path.join(vlib.WORK, "beh", "C03-steps.ndjson")
+    vlib.write_ndjson(inp, sample)
+    vlib.gvh(["record", "steps", inp, out])
+    evs = vlib.read_ndjson(out)
+    for e in evs:
+        if e["ev"] in ("panic", "opfail"):
+            res.add_violation({"suite": "steps-trace", "what": e["ev"], "def": e.get("def"), "detail": e, "signature": "steps|" + e["ev"]})
+    info = vlib.tlc_trace("Trace_Pipeline", out, timeout=2400)
+    res.states += info["states"]
+    res.transitions += info["generated"]
+    res.trace_events += info["matched"] or 0
+    if info["accepted"]:
+        res.trace_segments_accepted += sum(1 for e in evs if e["ev"] == "start")
+    else:
+        k = info["matched"] or 0
+        starts = [i for i, e in enumerate(evs[:k + 1]) if e["ev"] == "start"]
+        seg = evs[starts[-1]: k + 1] if starts else evs[: k + 1]
+        res.add_violation({"suite": "steps-trace", "what": "step trace rejected by Trace_Pipeline", "def": seg[0].get("def") if seg else None,
+                           "first_unmatched_event": info["next"], "segment": seg, "signature": "steps|" + str(seg[0].get("def") if seg else "")})
+    # the binding binds: a trace with one altered per-step count must be rejected
+    i = next(i for i, e in enumerate(evs) if e["ev"] == "step" and not e["skipped"])
+    bad = [dict(e) for e in evs[: i + 40]]
+    bad[i]["count"] = bad[i]["count"] + 1
+    pth = out + ".corrupt"
+    vlib.write_ndjson(pth, bad)
+    if vlib.tlc_trace("Trace_Pipeline", pth, tag="Trace_Pipeline-c")["accepted"]:
+        raise vlib.ToolError("step-trace validation is vacuous: a corrupted trace was accepted")
+
+
 def run(tier, seed):
     res = vlib.Result(PROP, tier, seed, "model_checking")
     vlib.build_harness()
@@ -22,10 +55,15 @@ def run(tier, seed):
         vlib.require_coverage(r, ["InstFail", "DispatchNext", "StepSkip", "StepLeaf", "StepEnter", "Return"])
         res.add_tlc(r)
         recs = r["records"].get("REPLAY", [])
+        if cfg == "MC_C03_len2":
+            specrecs = [x for x in recs if x["ok"]]
         for x in recs:
             behaviours += pipelib.to_behaviours(len(behaviours), x)
             if x["ok"] and any(a["data"] != x["data"] or a["count"] != len(x["data"]) for a in x["apps"]):
                 nontrivial.add(x["def"])
+    # ---- internal conformance: the step events of the real pipeline operator (hook) are a behaviour
+    # ---- of the small-step machine (per-step counts at every nesting level, skipped steps)
+    steps_trace(res, specrecs, 6000 if tier == "quick" else len(specrecs))
     summary, mism = scriptlib.replay_scripts(PROP, behaviours)
     res.behaviours_replayed = summary["behaviours"] - len(mism)
     res.evaluations = summary["evaluations"]
